@@ -5,6 +5,7 @@ objects and graph names; default graph <-> default graph).  RDF Patch: add-form 
 """
 import json
 from rdflib import Dataset, Graph, URIRef, BNode, Literal
+from rdflib.namespace import RDF
 from rdflib.graph import DATASET_DEFAULT_GRAPH_ID
 from rv.terms import enc, dec, lkey, tkey, show, XS
 from rv.iso import iso
@@ -73,6 +74,12 @@ def triggers(quads, fmt):
                 if c not in t: t.append(c)
     if fmt == "json-ld":
         if any(isinstance(q[3], BNode) for q in quads): t.append("C06-jsonld-bnode-named-graph")
+        # a list cell (subject of rdf:first in one graph) that also occurs in another graph: @list has no identifier to share
+        cells = {}
+        for q in quads:
+            if q[1] == RDF.first and isinstance(q[0], BNode): cells.setdefault(q[0], set()).add(q[3])
+        if any(isinstance(x, BNode) and x in cells and q[3] not in cells[x] or (isinstance(x, BNode) and x in cells and len(cells[x]) > 1) for q in quads for x in (q[0], q[2])):
+            t.append("C06-jsonld-list-cell-shared-across-graphs")
     return t
 
 
